@@ -84,6 +84,7 @@ struct InterpreterEnv : public ScriptExecutionEnvironment {
     std::vector<ConditionStack> vfExec_history;
     std::vector<CScript::const_iterator> pbegincodehash_history;
     std::vector<ScriptExecutionData> execdata_history;
+    std::vector<uint32_t> opcode_pos_history;
     std::vector<CScript> script_history;
     const CScript& scriptIn;
     int curr_op_seq;
